@@ -142,7 +142,7 @@ EXEMPT = {
     ('CSSStyleSheet._setCssText', 'self._updateVariables(...)'): 're-sets variables that were parsed and accepted once; setVariable cannot reject them',
     ('CSSStyleSheet.insertRule', 'self._updateVariables(...)'): 're-sets variables that were parsed and accepted once; setVariable cannot reject them',
     ('MarginRule._setCssText', 'self.margin = <derived> (setter)'): "the value was matched by the '@ margin' production, whose predicate is membership in MarginRule.margins - the same test _setMargin applies",
-    ('MarginRule._setCssText', "self._log.error('No margin @keyword for this %s rule')"): "unreachable when the parse succeeded: the '@ margin' production is mandatory and stores 'margin'",
+    ('MarginRule._setCssText', "self._log.error('No margin @keyword for this')"): "unreachable when the parse succeeded: the '@ margin' production is mandatory and stores 'margin'",
     ('Property._setCssText', 'self.validate(...)'): 'validation reports with neverraise=True; the remaining site raises Exception for a failing user-supplied validator function, not one of the DOM exceptions the property is about',
     ('Property.priority', "self._log.error('Property: No priority in a MediaQuery - ignored.')"): "the two attributes written before it are always '' for a media-query property (this setter is their only writer), so nothing observable changes",
     ('MarginRule._setCssText', 'CSSStyleDeclaration(...); self.style = <derived> (setter)'): "the block is constructed without text; CSSStyleDeclaration._setCssText('') has no token to reject, and _setStyle parses only str arguments",
